@@ -7,7 +7,9 @@ BUILD = os.path.join(VERIF, ".build")
 EVID = os.path.join(VERIF, "evidence")
 REPLAY = os.path.join(EVID, "replay")
 VX = os.path.join(BUILD, "tools", "release", "vx-extract")
-NPROC = os.cpu_count() or 8
+NPROC = int(os.environ.get("VERIF_JOBS", "0")) or os.cpu_count() or 8
+import hashlib as _hl
+REPO_TAG = "main" if REPO == "/repo" else _hl.sha256(REPO.encode()).hexdigest()[:10]
 
 OFFLINE_ENV = {"CARGO_NET_OFFLINE": "true", "GOPROXY": "off", "PIP_NO_INDEX": "1"}
 
@@ -100,7 +102,7 @@ def cache_put(key, val):
     # keep the cache small: drop entries of other trees
     base = os.path.join(BUILD, "cache")
     ents = sorted((os.path.getmtime(os.path.join(base, e)), e) for e in os.listdir(base))
-    for _, e in ents[:-6]:
+    for _, e in ents[:-40]:
         if e != tree_hash():
             shutil.rmtree(os.path.join(base, e), ignore_errors=True)
     tmp = os.path.join(d, key + ".json.tmp%d" % os.getpid())
